@@ -26,7 +26,16 @@ def explore(ck, name, cfg, steps, label):
         extra = [(t, o) for (t, o, _e) in cat if (t, o) not in own]
         rng.shuffle(extra)
         full = own + extra[:max(0, 700 - len(own))]
-        agent.action_manager.action_map = {i: a for i, a in enumerate(full)}
+        items = list(enumerate(full))
+        rng.shuffle(items)          # a mapping from action number to action: the order in which it is written is immaterial
+        agent.action_manager.action_map = dict(items)
+        if hasattr(agent.action_manager, "__dict__"):
+            for attr in list(vars(agent.action_manager)):
+                if attr.startswith("_") and "cache" in attr.lower():
+                    try:
+                        setattr(agent.action_manager, attr, None)
+                    except Exception:
+                        pass
     widen(env)
     inv_key = None
     for st in range(steps):
@@ -80,7 +89,23 @@ def explore(ck, name, cfg, steps, label):
             (i, t, o, req, reaches) = rng.choice(pool)
             if focus_left == 0 and rng.random() < 0.5:
                 focus, focus_left = ent((i, t, o, req, reaches)), rng.randint(3, 7)
+            transitional = any(nd.operating_state.name not in ("ON", "OFF") for nd in sim.network.nodes.values())
             game.pre_timestep()
+            # the mask was handed to the agent BEFORE pre_timestep, the action is applied AFTER it: while anything is in a
+            # transitional state, check that the mask still tells the truth at the moment of application
+            if transitional:
+                for (j, tj, oj, reqj, _r) in entries:
+                    if tj not in POWER and not tj.startswith(("node-service", "node-application", "host-nic", "node-file-create", "node-os-scan")):
+                        continue
+                    try:
+                        _t, reaches_now, _in = reqwalk.dump_path(sim._request_manager, reqj, ids, [])
+                    except Exception:
+                        continue
+                    ck.count("mask-rechecked-after-pre-timestep")
+                    if bool(mask[j]) != reaches_now:
+                        ck.violation("mask-stale-at-application:%s" % tj, "mask[%d]=%d for %s %s was computed before pre_timestep; when the action is applied the request tree says reaches-handler=%s"
+                                     % (j, int(mask[j]), tj, oj, reaches_now), {"scenario": name, "step": st, "entry": j, "action": tj, "options": oj, "mask": int(mask[j]), "history": hist(env)})
+                        break
             res = reqwalk.execute(sim, req, ids, compare_state=False)
             rep = {"scenario": name, "step": st, "entry": i, "action": t, "options": o, "request": req, "mask": int(mask[i]),
                    "result": {k: v for k, v in res.items() if k != "coq_in"}, "history": hist(env)}
